@@ -170,7 +170,7 @@ def run_check(prop, tier, seed, jobs=None, overrides=None, quiet=False, repo=REP
                 tasks.append((modname, name, tier, ov_key, overrides))
     tasks.sort(key=lambda t: -timings.get(t[1], 30))      # longest first
     results = []
-    budget = int(os.environ.get("PYVC_TASK_TIMEOUT", "0") or 0) or (600 if tier == "quick" else 7200)
+    budget = int(os.environ.get("PYVC_TASK_TIMEOUT", "0") or 0) or (1200 if tier == "quick" else 7200)
     for t, status, res in run_parallel(run_task, tasks, jobs, budget):
         if status == "ok":
             results.append(res)
